@@ -119,21 +119,17 @@ int snoopy_util_parser_csvToArgList (char *argListRaw, char ***argListParsed)
 int snoopy_util_parser_strByteLength (char const * const numberAsText, const int valMin, const int valMax, const int valDefault)
 {
     char const *numberAsTextPtr       = numberAsText;
-    int  numbersBufLength             = 20; // 20 characters are needed to store max long long int in decimal representation + \0.
-    char numbersBuf[numbersBufLength];
-    int  numberInt;
-    int  factor = 1;
-    int  result;
+    long long numberInt = 0;
+    long long factor = 1;
+    long long result;
 
-    // Extract numbers
-    while ((*numberAsTextPtr != '\0') && isdigit(*numberAsTextPtr) && (numberAsTextPtr-numberAsText < numbersBufLength-2)) {
-        numbersBuf[numberAsTextPtr - numberAsText] = *numberAsTextPtr;
+    // Extract numbers - the value saturates once it is above valMax, which prevents overflows
+    while (isdigit((unsigned char) *numberAsTextPtr)) {
+        if (numberInt <= valMax) {
+            numberInt = numberInt * 10 + (*numberAsTextPtr - '0');
+        }
         numberAsTextPtr++;
     }
-    numbersBuf[numberAsTextPtr - numberAsText] = '\0';
-
-    // Convert to int
-    numberInt = atoi(numbersBuf);
     if (numberInt == 0) {
         return valDefault;
     }
@@ -150,5 +146,5 @@ int snoopy_util_parser_strByteLength (char const * const numberAsText, const int
     if (result < valMin) result = valMin;
     if (result > valMax) result = valMax;
 
-    return result;
+    return (int) result;
 }
